@@ -337,6 +337,8 @@ static void it_destroy(sqfs_object_t *obj)
 static int tar_probe(const sqfs_u8 *data, size_t size)
 {
 	size_t i, offset;
+	sqfs_u64 chksum;
+	tar_header_t hdr;
 
 	if (size >= TAR_RECORD_SIZE) {
 		for (i = 0; i < TAR_RECORD_SIZE; ++i) {
@@ -352,12 +354,20 @@ static int tar_probe(const sqfs_u8 *data, size_t size)
 
 	offset = offsetof(tar_header_t, magic);
 
-	if (offset + 5 <= size) {
-		if (memcmp(data + offset, "ustar", 5) == 0)
-			return 1;
-	}
+	/* compressed data can hold the magic at this offset by accident,
+	   a tar header is a complete record with a valid checksum */
+	if (size < sizeof(hdr))
+		return 0;
 
-	return 0;
+	if (memcmp(data + offset, "ustar", 5) != 0)
+		return 0;
+
+	memcpy(&hdr, data, sizeof(hdr));
+
+	if (read_number(hdr.chksum, sizeof(hdr.chksum), &chksum))
+		return 0;
+
+	return chksum == tar_compute_checksum(&hdr) ? 1 : 0;
 }
 
 sqfs_dir_iterator_t *tar_open_stream(sqfs_istream_t *strm,
